@@ -1258,7 +1258,13 @@ var _ = constant.MakeInt64
 
 // hasBound reports whether a rendered term mentions a quantifier-bound variable.
 func hasBound(s string) bool {
-	return strings.Contains(s, "!q") || strings.Contains(s, "!l") || strings.Contains(s, "a!")
+	// bound variables are named <name>!<letter>...; fresh constants <name>!<digits>
+	for i := 0; i+1 < len(s); i++ {
+		if s[i] == '!' && s[i+1] >= 'a' && s[i+1] <= 'z' {
+			return true
+		}
+	}
+	return false
 }
 
 // pendingStore: a callback stored into a field declared `pending` counts as handed over: the
